@@ -101,7 +101,20 @@ def run(tier, replay_file=None):
             SdSimulation(model=m).change_runspecs(ts[0], ts[-1], float(fr(nxt["rs"]["dt"])))
             m.reset_cache()
             indep = [e for e in sd_dsl.ELEMENTS if e not in ("dl", "pl")]      # delay / pulse capture dt when their equation is built
-            compare(R, nxt, lambda el, k, t: m.evaluate_equation(el, t), "the same model after its run specs were changed in place", stats, elements=indep)
+            ok4 = compare(R, nxt, lambda el, k, t: m.evaluate_equation(el, t), "the same model after its run specs were changed in place", stats, elements=indep)
+            if ok4:
+                # ... and the whole run of that simulation object: it must be reported on the NEW grid
+                sds = SdSimulation(model=m)
+                sds.change_runspecs(ts[0], ts[-1], float(fr(nxt["rs"]["dt"])))
+                m.reset_cache()
+                dfr = sds.start(output=["frame"], equations=list(indep))
+                idx = [float(t) for t in dfr.index]
+                if len(idx) != len(ts) or any(abs(x - y) > 1e-9 for x, y in zip(idx, ts)):
+                    R.violation("the run of a simulation whose run specs were changed does not cover the new time grid",
+                                {"expected": ts[:3] + ["...", ts[-1]], "n_expected": len(ts), "observed": idx[:3] + ["...", idx[-1] if idx else None], "n_observed": len(idx),
+                                 "runspec": {x: str(fr(v)) if isinstance(v, list) else v for x, v in nxt["rs"].items()}})
+                else:
+                    compare(R, nxt, lambda el, k, t: float(dfr[el].iloc[k]), "SdSimulation.start after change_runspecs", stats, whole_run=True, elements=[e for e in indep if e != "tr"])
             R.add("rerun_with_changed_runspecs")
         if ok:
             # observation point 5: a model that is EDITED into another member of the family (constants, initial value, table,
